@@ -182,6 +182,14 @@ def expand_star_dict(kws):
         if k.arg is None and isinstance(v, ast.Dict) and v.keys and all(
                 isinstance(x, ast.Constant) and isinstance(x.value, str) and x.value.isidentifier() for x in v.keys):
             out.extend(ast.keyword(arg=x.value, value=y) for x, y in zip(v.keys, v.values))
+        elif k.arg is None and isinstance(v, ast.Call) and isinstance(v.func, ast.Name) and v.func.id == 'dict' and len(v.args) <= 1 \
+                and all(kk.arg is not None for kk in v.keywords) and not any(isinstance(a, ast.Starred) for a in v.args):
+            # f(**dict(m, a=x)) is f(**m, a=x)   (a key of m that is given again would be replaced: the
+            # names given explicitly are the parameters of the callee, which m -- the rest of the
+            # keywords the caller itself received -- cannot contain)
+            if v.args:
+                out.append(ast.keyword(arg=None, value=v.args[0]))
+            out.extend(ast.keyword(arg=kk.arg, value=kk.value) for kk in v.keywords)
         else:
             out.append(k)
     return out
@@ -1324,6 +1332,15 @@ class _Ev:
     def v_Call(self, e, cond):
         func = self.v(e.func, cond)
         args = [self.v(a, cond) for a in e.args]
+        # f(*(a, b)) is f(a, b)
+        if any(isinstance(a, ast.Starred) and isinstance(a.value, (ast.Tuple, ast.List)) and not any(isinstance(x, ast.Starred) for x in a.value.elts) for a in args):
+            flat = []
+            for a in args:
+                if isinstance(a, ast.Starred) and isinstance(a.value, (ast.Tuple, ast.List)) and not any(isinstance(x, ast.Starred) for x in a.value.elts):
+                    flat.extend(a.value.elts)
+                else:
+                    flat.append(a)
+            args = flat
         kws = expand_star_dict([ast.keyword(arg=k.arg, value=self.v(k.value, cond)) for k in e.keywords])
         new = ast.Call(func=func, args=args, keywords=kws)
         ast.copy_location(new, e)
